@@ -19,7 +19,7 @@ TRUSTED = ["Coq 8.16.1 kernel + vm_compute", "Rust executor /verif/harness (Rat 
            "hand-written Gallina model coq/Model/{Matrix,MatOps,MatNorms}.v tied to src/matrix/*.rs by differential execution (Rat vs Qc exact; f64/Complex vs primitive floats)"]
 ASSUMPTIONS = ["Rust semantics of Vec/usize as modelled (checked indexing, debug overflow checks)", "the sampled cases are where model and code were compared; the theorems are about the model",
                "norms_real only: the four standard-library axioms of the classical real numbers"]
-UNPROVED = ["floating-point accuracy of the f64 norms and libm's powf inside norm_p (the theorems are over exact order/real arithmetic with powf as a parameter; the f64 instance is tied bit-for-bit / by tolerance and searched against mpmath)",
+UNPROVED = ["round two: matvec_backward_error / matmul_backward_error (fl(Ax) = (A+dA)x, |dA| <= gamma_n |A|) in the standard model and at binary64 via Flocq; accuracy of the f64 norms and of libm's powf inside norm_p remains tie + search (the norm theorems are over exact order/real arithmetic with powf as a parameter)",
             "history refinement (run_refines) covers the 18 checked editing operations; the raw (i,j) writes m[(i,j)]= / swap_elem (unchecked addressing, outside the claim) and /= scalar (own theorem mdiv_assign_scalar_spec) are tied and searched only",
             "operand non-mutation / owned=borrowed are run-time observations of the executor (a value model satisfies them vacuously)"]
 
